@@ -27,6 +27,7 @@ STATE = [
                                                                          'mStandardUnits': 'cache keyed by constant standard-unit names; its content does not depend on the analysed model'}),
     ('Generator::GeneratorImpl', 'libcellml::Generator::implementationCode', {'mModel': 'documented user state (setModel)', 'mProfile': 'documented user state (setProfile)'}),
     ('Generator::GeneratorImpl', 'libcellml::Generator::interfaceCode', {'mModel': 'documented user state (setModel)', 'mProfile': 'documented user state (setProfile)'}),
+    ('Printer::PrinterImpl', 'libcellml::Printer::printModel', {'mPrinter': 'back pointer to the public object'}),
 ]
 ENTITY_FILES = ('model.cpp', 'component.cpp', 'componententity.cpp', 'variable.cpp', 'units.cpp', 'reset.cpp', 'importsource.cpp', 'entity.cpp', 'namedentity.cpp', 'importedentity.cpp', 'parentedentity.cpp')
 ENTITY_CLASSES = ('libcellml::Model', 'libcellml::Component', 'libcellml::ComponentEntity', 'libcellml::Variable', 'libcellml::Units', 'libcellml::Reset', 'libcellml::ImportSource',
@@ -66,11 +67,29 @@ def rule_h1(F, rep, rid, states):
         own = [x['n'] for x in rec['fields']]
         reach = F.reach([entry.key])
         written = set()
+        ptr_fields = {x['n'] for x in rec['fields'] if 'shared_ptr' in x['t']}
         for k in reach:
             g = F.funcs[k]
             for n in g.walk():
                 if n.get('k') == 'Member' and n.get('field') and n.get('q', '') == rec['qname'] + '::' + n['n'] and is_write_context(g, n):
                     written.add(n['n'])
+                # a helper object held through a shared_ptr member is state too: a non-const method called on it (directly or through a local
+                # that was initialised from the member) changes what the next top-level call finds
+                if n.get('k') == 'Member' and n.get('field') and n.get('q', '') == rec['qname'] + '::' + n['n'] and n['n'] in ptr_fields:
+                    holders = [n]
+                    p_ = g.parent(n)
+                    while p_ is not None and p_.get('k') in ('Cast', 'Construct', 'Temp'):
+                        p_ = g.parent(p_)
+                    if p_ is not None and p_.get('k') == 'Var':
+                        holders += [r_ for r_ in g.walk() if r_.get('k') == 'Ref' and r_.get('d') == p_.get('d')]
+                    for h_ in holders:
+                        a_ = g.parent(h_)
+                        if a_ is not None and a_.get('k') == 'Call' and a_.get('opc') in ('->', '*'):
+                            call_ = g.parent(a_)
+                            while call_ is not None and call_.get('k') in ('Member',):
+                                call_ = g.parent(call_)
+                            if call_ is not None and call_.get('k') == 'Call' and call_.get('mc') and any(ck in F.funcs and not F.funcs[ck].j.get('const') for ck in F.callee_keys(call_)):
+                                written.add(n['n'])
         for fld in own:
             key = '%s|%s|%s' % (rec_s.split('::')[-1], entry.short.split('::')[-1], fld)
             if fld in documented:
